@@ -7,7 +7,7 @@
   The proportional evaluator is a PARAMETER (`PropEval`): every adjuster is modelled for an arbitrary
   distributor `votes → n_seats → prev_gains → max_seats → result | exception`.  Two instances are given:
   `haEval div` (the C01 model `VL.highestAverages`) and `lrHareEval` (a minimal model of
-  `LargestRemainder('hare')`, proportional.py L205-273 + L352-390, written here so that this file does not
+  `LargestRemainder('hare')`, proportional.py QuotaDistributor.evaluate + LargestRemainder.evaluate, written here so that this file does not
   depend on the C02 model).
 
   Conventions: a party is a `Cand`; `prev_gains` / `max_seats` are `Seats` (party -> Nat, insertion order);
@@ -89,26 +89,22 @@ def normDist (d : Dist) : Dist := d.map (fun p => (normKey p.1, p.2))
 def haEval (div : Nat → Rat) : PropEval := fun votes n prev caps =>
   (highestAverages { div := div, votes := votes, n := n, prev := prev, caps := caps }).map normDist
 
-/-- `QuotaDistributor('hare').evaluate(votes, n, prev_gains)` (proportional.py L221-273) with
-    `accept_equal=True`, `on_overaward='error'`, no `max_seats`:  whole Hare quotas beyond the previous gains.
-    `selected` holds only positive additions.  The cap-overshoot branch (L237-257) needs
-    `int(v/q) > n_seats`, impossible for the Hare quota `q = total/n`; the model answers `Unmodelled` there.
+/-- `QuotaDistributor('hare').evaluate(votes, n, prev_gains, max_seats={})` (proportional.py L221-252) with
+    `accept_equal=True`, `on_overaward='error'`:  whole Hare quotas beyond the previous gains
+    (`min(int(v/q), max_seats.get(c, INF)) - prev`, no cap given).  `selected` holds only positive additions.
     `hareStep` is the body of the `for candidate, n_votes in votes.items()` loop. -/
-def hareStep (q : Rat) (n : Nat) (prev : Seats) (acc : Except Err Seats) (p : Cand × Rat) : Except Err Seats := do
+def hareStep (q : Rat) (prev : Seats) (acc : Except Err Seats) (p : Cand × Rat) : Except Err Seats := do
   let sel ← acc
   if q < p.2 ∨ p.2 = q then
     if q = 0 then .error zeroDiv else
-    let whole : Int := Py.pyInt (p.2 / q)
-    let add : Int := whole - (natLookup prev p.1 0 : Nat)
-    if 0 < add then
-      if (n : Int) < whole then .error unmodelled
-      else pure (sel ++ [(p.1, add.toNat)])
+    let add : Int := Py.pyInt (p.2 / q) - (natLookup prev p.1 0 : Nat)
+    if 0 < add then pure (sel ++ [(p.1, add.toNat)])
     else pure sel
   else pure sel
 
 def hareQuotaSeats (votes : Votes) (n : Nat) (prev : Seats) : Except Err Seats :=
   if n = 0 then .error zeroDiv else
-  votes.foldl (hareStep (sumVals votes / (n : Rat)) n prev) (.ok [])
+  votes.foldl (hareStep (sumVals votes / (n : Rat)) prev) (.ok [])
 
 /-- `quota_elected[candidate] += 1` / `= 1` for one entry of `best` (proportional.py L385-389) -/
 def incSlot (acc : Dist) : Slot → Dist
@@ -228,49 +224,81 @@ def setV : Votes → Cand → Rat → Votes
 def voteTotals (cv : CVotes) : Votes :=
   cv.foldl (fun all d => d.2.foldl (fun acc p => setV acc p.1 (getD acc p.1 0 + p.2)) all) []
 
-/-- `ByConstituency(ev, apportioner={cty: seats}).evaluate(votes, n_seats)` (core.py L974-995):
-    each constituency separately with its pre-set seat count; constituencies with zero seats get an empty
-    result and move to the end of the dict; a constituency missing from the apportionment passes
-    `None` as seat count (TypeError in the inner evaluator). -/
-def byConstituencyFixed (ev : PropEval) (app : List (Cty × Nat)) : CtyEval := fun cv _ =>
+/-- the district loop of `ByConstituency.evaluate` (core.py `for district, dvotes in votes.items()`): every
+    constituency with its own seat count (`apportionment.get(district, 0)`); constituencies with zero seats get an
+    empty result and move to the end of the dict (`no_value_districts`); no preselector, no previous gains. -/
+def evalDistricts (ev : PropEval) (seatsOf : Cty → Nat) (cv : CVotes) : Except Err (List (Cty × Dist)) :=
   let step (acc : Except Err (List (Cty × Dist) × List Cty)) (d : Cty × Votes) :
       Except Err (List (Cty × Dist) × List Cty) := do
     let (res, empties) ← acc
-    match app.find? (fun p => p.1 = d.1) with
-    | none => .error (.other "TypeError")
-    | some (_, 0) => pure (res, empties ++ [d.1])
-    | some (_, k) => do
+    match seatsOf d.1 with
+    | 0 => pure (res, empties ++ [d.1])
+    | k => do
       let r ← ev d.2 k [] []
       pure (res ++ [(d.1, r)], empties)
   match cv.foldl step (.ok ([], [])) with
   | .error e => .error e
-  | .ok (res, empties) =>
-    if res = [] then .error (.other "StopIteration")
-    else .ok (res ++ empties.map (fun c => (c, [])))
+  | .ok (res, empties) => .ok (res ++ empties.map (fun c => (c, [])))
 
-/-- `lowest_allowed` of the by-constituency variant (L694-700): per constituency
-    `max(direct, proportional)`, summed over the constituencies by `VoteTotals` -/
+/-- `ByConstituency(ev, apportioner={cty: seats}).evaluate(votes, n_seats)`: the seat counts are pre-set, `n_seats`
+    is ignored; a constituency missing from the apportionment counts as zero seats -/
+def byConstituencyFixed (ev : PropEval) (app : List (Cty × Nat)) : CtyEval := fun cv _ =>
+  evalDistricts ev (fun c => natLookup app c 0) cv
+
+/-- `ByConstituency(ev, apportioner=appEv).evaluate(votes, n_seats)` with an integer `n_seats`: the apportioner
+    distributes `n_seats` over the constituencies by their vote totals (`apportion`, core.py); a constituency that only
+    appears inside a `Tie` of the apportionment counts as zero seats -/
+def byConstituencyApportioned (ev appEv : PropEval) : CtyEval := fun cv n => do
+  let app ← appEv (cv.map (fun d => (d.1, sumVals d.2))) n [] []
+  evalDistricts ev (fun c => distGet app (.cand c)) cv
+
+/-- the parties of the proportional tier: keys of any constituency result (`prop_parties`) -/
+def propParties (cres : List (Cty × Dist)) : List Key := cres.flatMap (fun d => d.2.map (·.1))
+
+/-- one constituency's entry of the dict handed to `VoteTotals` in `lowest_allowed`: for the parties of the
+    constituency result and for the tier parties that only hold direct seats there,
+    `max(direct seats here, proportional seats here)` -/
+def lowestCtyOne (tier : List Key) (res : Dist) (prevc : Seats) : Dist :=
+  res.map (fun p => (p.1, max (prevGetKey prevc p.1) p.2)) ++
+  prevc.filterMap (fun q =>
+    if tier.contains (Key.cand q.1) && !(distHas res (.cand q.1)) then some (Key.cand q.1, max q.2 0) else none)
+
+/-- `lowest_allowed` of the by-constituency variant: the per-constituency minima summed over the
+    constituencies by `VoteTotals` -/
 def lowestAllowedCty (cres : List (Cty × Dist)) (prev : CSeats) : Dist :=
   cres.foldl (fun all d =>
-    (lowestAllowed d.2 (ctyPrev prev d.1)).foldl (fun acc p => setK acc p.1 (distGet acc p.1 + p.2)) all) []
+    (lowestCtyOne (propParties cres) d.2 (ctyPrev prev d.1)).foldl
+      (fun acc p => setK acc p.1 (distGet acc p.1 + p.2)) all) []
 
-/-- `nonprop_drop` of the by-constituency variant (L705-709) -/
+/-- `nonprop_drop` of the by-constituency variant -/
 def nonpropDropCty (lowest : Dist) (prev : CSeats) : Nat :=
   prev.foldl (fun acc d => d.2.foldl (fun a p => if distHas lowest (.cand p.1) then a else a + p.2) acc) 0
 
-/-- `LevelOverhangByConstituency(cev, overall_evaluator=ov).calculate(votes, n_seats, prev_gains)`
-    (core.py L666-734) with an overall evaluator given and `max_seats = {}`.  Unlike `LevelOverhang`, the first
-    overall evaluation is already made at `n_seats - nonprop_drop`. -/
-def levelOverhangCty (cev : CtyEval) (ov : PropEval) (fuel : Nat) (cv : CVotes) (n : Nat) (prev : CSeats) :
-    Except Err Nat := do
+/-- `LevelOverhangByConstituency.calculate(votes, n_seats, prev_gains)` with `max_seats = {}`, for an arbitrary way
+    `ovAt h` of obtaining the overall distribution of `h` seats.  Unlike `LevelOverhang`, the first overall evaluation
+    is already made at `n_seats - nonprop_drop`. -/
+def levelOverhangCtyAt (cev : CtyEval) (ovAt : Nat → Except Err Dist) (fuel : Nat) (cv : CVotes) (n : Nat)
+    (prev : CSeats) : Except Err Nat := do
   let cres ← cev cv n
   let lowest := lowestAllowedCty cres prev
   let drop := nonpropDropCty lowest prev
   if n < drop then .error unmodelled else do
-  let pv := voteTotals cv
-  let prop ← ov pv (n - drop) [] []
-  let h ← levelLoop (fun h => ov pv h [] []) lowest fuel (n - drop) prop
+  let prop ← ovAt (n - drop)
+  let h ← levelLoop ovAt lowest fuel (n - drop) prop
   pure (h + drop - n)
+
+/-- … with `overall_evaluator=ov` given: it evaluates the nationwide vote totals -/
+def levelOverhangCty (cev : CtyEval) (ov : PropEval) (fuel : Nat) (cv : CVotes) (n : Nat) (prev : CSeats) :
+    Except Err Nat :=
+  levelOverhangCtyAt cev (fun h => ov (voteTotals cv) h [] []) fuel cv n prev
+
+/-- `MergedDistributions().convert` of a by-constituency result -/
+def mergeDists (r : List (Cty × Dist)) : Dist := r.foldl (fun acc d => addDist acc d.2) []
+
+/-- … with the default `overall_evaluator=None`: `PostConverted(constituency_evaluator, MergedDistributions())` on the
+    votes by constituency -/
+def levelOverhangCtyDefault (cev : CtyEval) (fuel : Nat) (cv : CVotes) (n : Nat) (prev : CSeats) : Except Err Nat :=
+  levelOverhangCtyAt cev (fun h => (cev cv h).map mergeDists) fuel cv n prev
 
 /-! ### ByParty as the distributing evaluator, and the depth-2 two-stage wrapper (DE example) -/
 
@@ -312,10 +340,13 @@ def byParty (ov alloc : PropEval) (cv : CVotes) (n : Nat) (prev : CSeats) : Exce
   let results ← overall.foldl step (.ok [])
   pure (cv.foldl (fun res d => if res.any (fun p => p.1 = Key.cand d.1) then res else res ++ [(Key.cand d.1, [])]) results)
 
-/-- `AdjustedSeatCount(LevelOverhangByConstituency(cev, ov), ByParty(ov', alloc)).evaluate(votes, n, prev_gains)` -/
-def adjustedByParty (cev : CtyEval) (ov : PropEval) (fuel : Nat) (ov' alloc : PropEval)
-    (cv : CVotes) (n : Nat) (prev : CSeats) : Except Err NDist := do
-  let adj ← levelOverhangCty cev ov fuel cv n prev
+/-- a by-constituency `SeatCountCalculator.calculate` -/
+abbrev CCalc := CVotes → Nat → CSeats → Except Err Nat
+
+/-- `AdjustedSeatCount(calculator, ByParty(ov', alloc)).evaluate(votes, n, prev_gains)` -/
+def adjustedByParty (calcr : CCalc) (ov' alloc : PropEval) (cv : CVotes) (n : Nat) (prev : CSeats) :
+    Except Err NDist := do
+  let adj ← calcr cv n prev
   byParty ov' alloc cv (n + adj) prev
 
 def cseatsToNDist (s : CSeats) : NDist := s.map (fun d => (Key.cand d.1, seatsToDist d.2))
@@ -333,14 +364,13 @@ def ndToCSeats : NDist → Option CSeats
   | (Key.tie _, _) :: _ => none
 
 /-- `MultistageDistributor([first stage yielding the direct seats by constituency,
-    AdjustedSeatCount(LevelOverhangByConstituency, ByParty)], depth=2).evaluate(votes, n)` -/
-def multistageDE (direct : CSeats) (cev : CtyEval) (ov : PropEval) (fuel : Nat) (ov' alloc : PropEval)
-    (cv : CVotes) (n : Nat) : Except Err NDist :=
+    AdjustedSeatCount(calculator, ByParty)], depth=2).evaluate(votes, n)` -/
+def multistageDE (direct : CSeats) (calcr : CCalc) (ov' alloc : PropEval) (cv : CVotes) (n : Nat) : Except Err NDist :=
   let elected := addNDist [] (cseatsToNDist direct)
   match ndToCSeats elected with
   | none => .error unmodelled
   | some prev =>
-    match adjustedByParty cev ov fuel ov' alloc cv n prev with
+    match adjustedByParty calcr ov' alloc cv n prev with
     | .ok res => .ok (addNDist elected res)
     | .error e => .error e
 
